@@ -214,6 +214,7 @@ var selMap = map[string]map[string]string{
 	"sync":      {"Pool": "Pool", "Mutex": "Mutex", "RWMutex": "RWMutex", "WaitGroup": "WaitGroup", "Cond": "Cond", "NewCond": "NewCond", "Once": "Once"},
 	"time":      {"Now": "Now", "Since": "Since", "Sleep": "Sleep"},
 	"os":        {"Stat": "OsStat", "ReadFile": "OsReadFile", "WriteFile": "OsWriteFile", "MkdirAll": "OsMkdirAll", "ReadDir": "OsReadDir", "Remove": "OsRemove"},
+	"maps":      {"Keys": "MapsKeys", "Values": "MapsValues", "All": "MapsAll"},
 	"math/rand": {"Intn": "RandIntn", "Int31": "RandInt31", "Int31n": "RandInt31n", "Int63": "RandInt63", "Int63n": "RandInt63n", "Int": "RandInt", "Float64": "RandFloat64", "Seed": "RandSeed", "Perm": "RandPerm", "Shuffle": "RandShuffle"},
 }
 
@@ -274,9 +275,11 @@ func (rw *rewriter) file(f *ast.File) {
 					used = true
 				}
 			}
-			if sel, ok := n.Fun.(*ast.SelectorExpr); ok && sel.Sel.Name == "MapRange" {
+			if sel, ok := n.Fun.(*ast.SelectorExpr); ok && sel.Sel.Name == "MapRange" && len(n.Args) == 0 {
 				if t := rw.info.TypeOf(sel.X); t != nil && t.String() == "reflect.Value" {
-					rw.cen.Skipped = append(rw.cen.Skipped, "reflect.MapRange at "+rw.fset.Position(n.Pos()).String())
+					c.Replace(&ast.CallExpr{Fun: simrtSel("MapRange"), Args: []ast.Expr{sel.X}})
+					rw.cen.Rules["reflect.MapRange"]++
+					used = true
 				}
 			}
 		case *ast.BinaryExpr:
@@ -382,7 +385,7 @@ func (rw *rewriter) file(f *ast.File) {
 	if used {
 		astutil.AddImport(rw.fset, f, "simrt")
 	}
-	for _, p := range []string{"sync", "time", "os", "math/rand"} {
+	for _, p := range []string{"sync", "time", "os", "math/rand", "maps"} {
 		if !astutil.UsesImport(f, p) {
 			astutil.DeleteImport(rw.fset, f, p)
 		}
